@@ -496,6 +496,16 @@ func (x *ctx) model(st *state, fr *frame, key string, callee *ssa.Function, args
 		}
 		return x.ret1(st, scalar(x.freshTerm("decodeErr", sRef))), true
 	}
+	if strings.HasSuffix(key, "internal/hashmap.NewWithSize") || strings.HasSuffix(key, "internal/hashmap.New") {
+		// A-table: a new table is a fresh object (its content, the ghost map, is unconstrained here: no contract
+		// under verification reads the content of a table it has just created)
+		r := x.freshTerm("new_table", sRef)
+		st.assume(not(eq(r, null)))
+		if x.spec == 0 {
+			x.assumeFreshRef(st, r)
+		}
+		return x.ret1(st, scalar(r)), true
+	}
 	if strings.HasSuffix(key, "internal/hashmap.Map.Get") || strings.HasSuffix(key, "internal/hashmap.Map.Compute") ||
 		strings.HasSuffix(key, "internal/hashmap.Map.Range") || strings.HasSuffix(key, "internal/hashmap.Map.Size") {
 		return x.tableModel(st, fr, key[strings.LastIndex(key, ".")+1:], callee, args, rt), true
